@@ -1,4 +1,7 @@
-"""C15: `BstParser.COMMANDS` (command name -> number of argument groups) read from /repo."""
+"""C15: `BstParser.COMMANDS` (command name -> number of argument groups) read from /repo, and the running
+interpreter's limit on the number of digits `int()` converts (`process_int_literal`)."""
+import sys
+
 import tables
 
 
@@ -10,5 +13,9 @@ def gen_bst_commands():
     body += '/-- `pybtex.bibtex.bst.BstParser.COMMANDS`, in the order of the source dict. -/\n'
     body += 'def bstCommands : List (Str × Nat) :=\n  [' + ',\n   '.join(
         '(%s.toList, %d)' % (tables.lean_str(k), int(v)) for k, v in cmds.items()) + ']\n\n'
+    limit = sys.get_int_max_str_digits() if hasattr(sys, 'get_int_max_str_digits') else 0
+    body += '/-- `sys.get_int_max_str_digits()` of the interpreter that runs pybtex: `int(s)` raises `ValueError` when `s`\n'
+    body += 'has more decimal digits than this (0 = no limit). -/\n'
+    body += 'def intMaxStrDigits : Nat := %d\n\n' % int(limit)
     body += 'end Pybtex.Gen\n'
     return 'BstCommands.lean', body
